@@ -75,6 +75,9 @@ OpDecodeInto(slot, syn, bytes) == [a |-> "DecodeInto", slot |-> slot, syn |-> sy
 OpEncodeCb(slot, syn, failat) == [a |-> "EncodeCb", slot |-> slot, syn |-> syn, failat |-> failat]  \* asn_encode, callback failing at its failat-th call
 OpEncodeBuf(slot, syn, rel) == [a |-> "EncodeBuf", slot |-> slot, syn |-> syn, rel |-> rel]          \* asn_encode_to_buffer, size relative to the full length
 OpBuildZero(slot) == [a |-> "BuildZero", slot |-> slot]     \* a zero-initialised structure (CHOICE unselected, members absent)
+\* the octets another build of the same module (other code-generation options, C13) produced for the
+\* session value: recorded as the encoding of that syntax, so that this build must reproduce them
+OpAdopt(syn, bytes) == [a |-> "Adopt", syn |-> syn, bytes |-> bytes]
 OpArm(k) == [a |-> "Arm", k |-> k]
 OpFree(slot) == [a |-> "Free", slot |-> slot]
 OpReset(slot) == [a |-> "Reset", slot |-> slot]
@@ -157,6 +160,7 @@ Step(obs) ==
           [] op.a = "BuildVal" -> obj' = [obj EXCEPT ![op.slot] = ObjV(op.val)] /\ UNCHANGED <<wire, dec>>
           [] op.a = "BuildZero" -> obj' = [obj EXCEPT ![op.slot] = RawObj] /\ UNCHANGED <<wire, dec>>
           [] op.a = "Arm" -> UNCHANGED <<obj, wire, dec>>
+          [] op.a = "Adopt" -> wire' = [wire EXCEPT ![op.syn] = op.bytes] /\ UNCHANGED <<obj, dec>>
           [] op.a \in {"Check", "Print", "EncodeCb", "EncodeBuf"} -> obj[op.slot].st # "none" /\ UNCHANGED <<obj, wire, dec>>
           [] op.a = "Encode" -> IF Vouched(obj[op.slot])
                                 THEN Encode(op, obs.bytes)
@@ -208,7 +212,7 @@ StrictFaults(op, ev) ==
          ELSE IF ~ev.wf THEN {"build-projection-malformed"}
          ELSE When(~SameValue(RawEnv, TypeOf(sc), ev.val, op.val), "build-projection-differs")
     [] op.a = "BuildZero" -> When(~ev.ok, "build-failed")
-    [] op.a = "Arm" -> {}
+    [] op.a \in {"Arm", "Adopt"} -> {}
     [] op.a = "Encode" ->
          IF obj[op.slot].st = "none" THEN {"no-object"}
          ELSE IF ~Vouched(obj[op.slot])
